@@ -76,6 +76,9 @@ func (s *zzC13Sess) Ping(ctx context.Context, p *PingParams) error {
 		return ctx.Err()
 	case 2:
 		return fmt.Errorf("%w: calling %q", ErrConnectionClosed, "ping")
+	case 3:
+		// the transport could not put the ping on the wire (no stream attached to a dead HTTP client): still a miss
+		return fmt.Errorf("calling %q: %w: undelivered message", "ping", jsonrpc2.ErrRejected)
 	}
 	return zzErrPing
 }
@@ -89,9 +92,14 @@ func zzC13() {
 	thr := vInt("threshold") // any int
 	interval := vIntRange("interval", 2, 1<<40)
 	var cancel context.CancelFunc
-	s := &zzC13Sess{cancel: &cancel, failureKind: vChoice("failureKind", 3)}
+	s := &zzC13Sess{cancel: &cancel, failureKind: vChoice("failureKind", 4)}
 	startKeepalive(s, time.Duration(interval), thr, &cancel, nil)
 	vAssert(cancel != nil, "C13.cancel-assigned-before-return")
+	zzC13Verify(s, thr, interval)
+}
+
+// zzC13Verify runs the keep-alive goroutine that was just started and compares what it did with the reference model.
+func zzC13Verify(s *zzC13Sess, thr, interval int) {
 	vAssert(vNumSpawned() == 1, "C13.one-goroutine")
 	vRunSpawned(0) // the keep-alive goroutine; returning at all means it terminated (no leak)
 	// reference model
@@ -274,4 +282,39 @@ func zzC07ServerSessions() {
 	vAssert(s1.supportedVersions != nil && zzSameVersions(s1.supportedVersions, filterSupportedVersions(t1)), "C07.session-serves-what-its-own-transport-supports")
 	vAssert(s2.supportedVersions != nil && zzSameVersions(s2.supportedVersions, filterSupportedVersions(t2)), "C07.session-serves-what-its-own-transport-supports")
 	vReach("end")
+}
+
+
+// The same loop started the way sessions start it — through the real ServerSession.startKeepalive /
+// ClientSession.startKeepalive — with the session's Ping and Close bridged to the scripted stub: whatever sits between
+// the session and the loop (adapters, option plumbing) must leave "threshold consecutive misses close the session,
+// an answer resets the count" intact for every kind of failed ping.
+var zzC13S *zzC13Sess
+
+func zzC13ServerPing(ss *ServerSession, ctx context.Context, p *PingParams) error { return zzC13S.Ping(ctx, p) }
+func zzC13ServerClose(ss *ServerSession) error                                       { return zzC13S.Close() }
+func zzC13ClientPing(cs *ClientSession, ctx context.Context, p *PingParams) error { return zzC13S.Ping(ctx, p) }
+func zzC13ClientClose(cs *ClientSession) error                                       { return zzC13S.Close() }
+
+func zzC13ViaSession() {
+	thr := vInt("threshold")
+	interval := vIntRange("interval", 2, 1<<40)
+	var cancelp *context.CancelFunc
+	if vBool("serverSide") {
+		srv := &Server{}
+		srv.opts.KeepAliveFailureThreshold = thr
+		ss := &ServerSession{server: srv}
+		cancelp = &ss.keepaliveCancel
+		zzC13S = &zzC13Sess{cancel: cancelp, failureKind: vChoice("failureKind", 4)}
+		ss.startKeepalive(time.Duration(interval))
+	} else {
+		c := &Client{}
+		c.opts.KeepAliveFailureThreshold = thr
+		cs := &ClientSession{client: c}
+		cancelp = &cs.keepaliveCancel
+		zzC13S = &zzC13Sess{cancel: cancelp, failureKind: vChoice("failureKind", 4)}
+		cs.startKeepalive(time.Duration(interval))
+	}
+	vAssert(*cancelp != nil, "C13.cancel-assigned-before-return")
+	zzC13Verify(zzC13S, thr, interval)
 }
